@@ -95,6 +95,14 @@ def features(rec) -> list:
         out.add("T:" + t[0])
         if t[0] == "tdict" and any(f[1] == ["none"] and f[2] for f in t[2]):
             out.add("tdict-none-required")
+        if t[0] in ("dict", "odict", "ddict", "mapping", "mmapping", "mproxy", "chainmap", "counter"):
+            k = t[1]
+            while k[0] == "newtype":
+                k = k[2]
+            nonstr = k[0] in ("int", "float", "bool", "timedelta", "none", "any") or \
+                (k[0] == "enum" and any(m[1][0] != "str" for m in k[3]))
+            if nonstr:
+                out.add("mapping-nonstring-key")
         if t[0] == "union" and ["none"] in t[1] and len(t[1]) >= 3:
             out.add("union-none-3plus")
         if t[0] in ("tuple",) and ["none"] in t[1]:
@@ -241,6 +249,9 @@ class Report:
         os.makedirs(os.path.join(VERIF, "evidence"), exist_ok=True)
         with open(os.path.join(VERIF, "evidence", self.prop + ".json"), "w") as fh:
             json.dump(_jsonable(ev), fh, indent=1)
+        if os.environ.get("VERIF_DUMP"):
+            with open(os.environ["VERIF_DUMP"], "w") as fh:
+                json.dump(_jsonable(self.violations), fh)
         for ln in lines:
             print(ln)
         print(f"[{self.prop}] tier={self.tier} seed={self.seed} states={cov['states']} evaluations={cov['evaluations']} "
